@@ -1,6 +1,7 @@
 package main
 
 import (
+	"hash/fnv"
 	"go/types"
 	"regexp"
 	"bytes"
@@ -226,7 +227,11 @@ func sanitizeFile(s string) string {
 	r := strings.NewReplacer("/", "_", " ", "_", "*", "P", "(", "", ")", "", ":", "-", "$", "S", "#", "n", "|", "", "@", "a", "<", "lt", ">", "gt")
 	s = r.Replace(s)
 	if len(s) > 150 {
-		s = s[:150]
+		// keep the name unique: the tail carries the per-query suffix (~N, .pathK), and a hash stands for what is cut
+		h := fnv.New32a()
+		h.Write([]byte(s))
+		tail := s[len(s)-24:]
+		s = fmt.Sprintf("%s_%08x_%s", s[:110], h.Sum32(), tail)
 	}
 	return s
 }
